@@ -4,6 +4,7 @@ import (
 	"fmt"
 	"go/token"
 	"go/types"
+	"os"
 	"sort"
 	"strings"
 
@@ -304,6 +305,9 @@ func ruleRequestTuples(c *Ctx, rule string) {
 							return
 						}
 						nc, _ := callOf(c2.Call.Args[1])
+						if os.Getenv("TURNCHECK_C04DEBUG") != "" && nc != nil {
+							fmt.Fprintf(os.Stderr, "C04DBG loop conn key=%s teardown conn key=%s\n", w.key(nc.Call.Args[0]), w.key(sc.Call.Value))
+						}
 						if nc != nil && nc.Call.StaticCallee() == newSC && w.sameKey(nc.Call.Args[0], sc.Call.Value) && c2.Block().Dominates(call.Block()) {
 							okL = true
 						}
